@@ -128,7 +128,8 @@ FLAVOURS = {
 FOLD_LABELS = {'int0': 0, 'float0': 0.0, 'str': '', 'list': [], 'dict': {}, 'false': False, 'tuple': (),
                'int5': 5, 'strw': 'w', 'list1': [1], 'dict1': {'k': 1}}
 FALSY = ['int0', 'float0', 'str', 'list', 'dict', 'false', 'tuple']
-STATEFUL_EXTRA = {'StatefulByMixin': True, 'StatelessChild': False, 'WrapMissingTrain': False, 'WrapCallableTrain': True}
+STATEFUL_EXTRA = {'StatefulByMixin': True, 'StatelessChild': False, 'StatefulChild': True, 'WrapMissingTrain': False,
+                  'WrapCallableTrain': True}
 VALUES = [0, 1, -2, 7, '', 'a', 'zz', None, 0.5, [1, 2], []]
 FEATURES = [0, 3, -1, 'f', 'gg', '', [1, 'u'], [], None, 2.5]
 EXTRA_NAMES = ['zeta', 'eta']
